@@ -126,5 +126,435 @@ def register_intersection(ix):
               "recursion (on the depth of the first argument) is not an obligation of the engine"))
 
 
+# --------------------------------------------------------------------------------- laws of the reference functions
+# Lemma objects: obligations over the DEFINITIONS of inter / diff / upd only (no function body).  A definition holds
+# at all arguments, so a fact proved from it for arbitrary constants may be used universally (GEN below states which).
+# Induction: the lemma's own statement at the sub-dictionaries a[k], b[k] (structurally smaller values) is a hypothesis.
+def _lemma_env(ip, st):
+    from pyvc.interp import VC
+    reg = ip.reg
+    declare_inter(reg)
+    declare_diff(reg)
+    declare_upd(reg)
+    a, b, l = reg.new("a", "Val"), reg.new("b", "Val"), reg.new("l", "Int")
+    return reg, a.s, b.s, l.s
+
+
+def _finish(ip, st, name, goal, cases=None):
+    from pyvc.interp import VC
+    from pyvc.smt import FALSE
+    if cases:
+        # proof by cases: the case conditions are exhaustive by form (c, not c)
+        assert len(cases) == 2 and cases[1] == "(not %s)" % cases[0]
+        for c in cases:
+            s2 = st.fork(T(c, "Bool"), "")
+            ip.emit("lemma", "%s [case %s]" % (name, c), s2, T(goal, "Bool"))
+    else:
+        ip.emit("lemma", name, st, T(goal, "Bool"))
+    ip.vcs.append(VC("cover requires", "cover", list(st.pc), FALSE, ""))
+    ip.vcs.append(VC("canary ensures False#0", "canary", list(st.pc), FALSE, ""))
+
+
+def _hyp(st, text):
+    st.assume(T(text, "Bool"))
+
+
+EMPTY = "(D emptymap)"
+# facts proved below for arbitrary arguments (lemmas G1-G3), used universally in the induction steps
+GEN_INTER_DICT = "(forall ((x Val) (y Val) (n Int)) (! (=> (and (isD x) (isD y)) (isD (inter x y n))) :pattern ((inter x y n))))"
+GEN_DIFF_DICT = "(forall ((x Val) (y Val) (n Int)) (! (=> (and (isD x) (isD y)) (isD (diff x y n))) :pattern ((diff x y n))))"
+GEN_UPD_EMPTY = "(forall ((x Val)) (! (=> (isD x) (= (upd x %s) x)) :pattern ((upd x %s))))" % (EMPTY, EMPTY)
+
+
+def lem_inter_dict(ip, st):
+    reg, a, b, l = _lemma_env(ip, st)
+    _hyp(st, inter_def(a, b, l))
+    _finish(ip, st, "G1: the intersection of two dictionaries is a dictionary",
+            "(=> (and (isD {a}) (isD {b})) (isD (inter {a} {b} {l})))".format(a=a, b=b, l=l))
+
+
+def lem_diff_dict(ip, st):
+    reg, a, b, l = _lemma_env(ip, st)
+    _hyp(st, diff_def(a, b, l))
+    _finish(ip, st, "G2: the difference of two dictionaries is a dictionary",
+            "(=> (and (isD {a}) (isD {b})) (isD (diff {a} {b} {l})))".format(a=a, b=b, l=l))
+
+
+def lem_upd_empty(ip, st):
+    reg, a, b, l = _lemma_env(ip, st)
+    _hyp(st, upd_def(a, EMPTY))
+    _finish(ip, st, "G3: updating a dictionary with {} leaves it as it is",
+            "(=> (isD {a}) (= (upd {a} {e}) {a}))".format(a=a, e=EMPTY))
+
+
+def lem_inter_idem(ip, st):
+    reg, a, b, l = _lemma_env(ip, st)
+    _hyp(st, "(isD %s)" % a)
+    _hyp(st, inter_def(a, a, l))
+    _finish(ip, st, "intersection is idempotent: inter(a, a, l) == a", "(= (inter {a} {a} {l}) {a})".format(a=a, l=l))
+
+
+def lem_inter_comm(ip, st):
+    reg, a, b, l = _lemma_env(ip, st)
+    _hyp(st, "(and (isD %s) (isD %s))" % (a, b))
+    _hyp(st, inter_def(a, b, l))
+    _hyp(st, inter_def(b, a, l))
+    # induction hypothesis: the law for the sub-dictionaries under every common key (any level)
+    _hyp(st, "(forall ((k Key) (n Int)) (! (=> (and (vhas {a} k) (vhas {b} k) (isD (vget {a} k)) (isD (vget {b} k))) "
+             "(= (inter (vget {a} k) (vget {b} k) n) (inter (vget {b} k) (vget {a} k) n))) "
+             ":pattern ((inter (vget {a} k) (vget {b} k) n))))".format(a=a, b=b))
+    _finish(ip, st, "intersection is commutative: inter(a, b, l) == inter(b, a, l)",
+            "(= (inter {a} {b} {l}) (inter {b} {a} {l}))".format(a=a, b=b, l=l),
+            cases=["(= %s 0)" % l, "(not (= %s 0))" % l])
+
+
+def lem_reconstruct(ip, st):
+    reg, a, b, l = _lemma_env(ip, st)
+    i, d = "(inter %s %s %s)" % (a, b, l), "(diff %s %s %s)" % (a, b, l)
+    _hyp(st, "(and (isD %s) (isD %s))" % (a, b))
+    _hyp(st, inter_def(a, b, l))
+    _hyp(st, diff_def(a, b, l))
+    _hyp(st, upd_def(i, d))
+    for g in (GEN_INTER_DICT, GEN_DIFF_DICT, GEN_UPD_EMPTY):
+        _hyp(st, g)
+    # induction hypothesis: the law for the sub-dictionaries under every common key (any level)
+    _hyp(st, "(forall ((k Key) (n Int)) (! (=> (and (vhas {a} k) (vhas {b} k) (isD (vget {a} k)) (isD (vget {b} k))) "
+             "(= (upd (inter (vget {a} k) (vget {b} k) n) (diff (vget {a} k) (vget {b} k) n)) (vget {a} k))) "
+             ":pattern ((inter (vget {a} k) (vget {b} k) n))))".format(a=a, b=b))
+    _finish(ip, st, "updating the intersection with the difference reconstructs d1: upd(inter(a, b, l), diff(a, b, l)) == a",
+            "(= (upd {i} {d}) {a})".format(i=i, d=d, a=a))
+
+
+def register_laws(ix):
+    for name, build, note in [
+        ("inter: result is a dictionary (G1)", lem_inter_dict, "from the definition of inter at arbitrary arguments"),
+        ("diff: result is a dictionary (G2)", lem_diff_dict, "from the definition of diff (C07.py) at arbitrary arguments"),
+        ("upd with {} (G3)", lem_upd_empty, "from the definition of upd (C07.py) at arbitrary arguments"),
+        ("inter idempotent", lem_inter_idem, "no induction needed"),
+        ("inter commutative", lem_inter_comm, "induction step; hypothesis = the law at the sub-dictionaries"),
+        ("upd(inter, diff) reconstructs d1", lem_reconstruct,
+         "induction step; hypothesis = the law at the sub-dictionaries; uses G1-G3 universally"),
+    ]:
+        ix.lemmas.append(Lemma(name, CF, ["C07"], build, notes=note))
+
+
+# ------------------------------------------------------------------------------- key paths: references and lemmas
+# The engine denotes the object reached from a dictionary x by the keys ks[i..n) by  the(walka(x, ks, i, n))  and a store
+# through such a reference by  wseta(x, ks, i, n, v)  (pyvc/dicts.py: declare_paths; ks is the ARRAY of a key list, so
+# that a prefix slice keys[:-1] has the same array).  Both recurse from the front; a cursor that steps one key deeper
+# extends the path at the back.  The lemmas connecting the two views are proved below as Lemma objects (induction on
+# the length of the path, the root generalised) and are made available to a function's obligations by the spec function
+# path_lemmas() (which evaluates to True and adds the proved, universally quantified lemmas as hypotheses).
+KARR = "(Array Int Key)"
+
+
+def walka_split(x, ks, lo, mid, n):
+    """P1: a walk can be cut anywhere: ks[lo..n) = ks[lo..mid) then ks[mid..n)"""
+    p = "(walka %s %s %s %s)" % (x, ks, lo, mid)
+    return ("(=> (and (<= {lo} {mid}) (<= {mid} {n})) (= (walka {x} {ks} {lo} {n}) "
+            "(ite (= {p} none) none (walka (the {p}) {ks} {mid} {n}))))").format(x=x, ks=ks, lo=lo, mid=mid, n=n, p=p)
+
+
+def lem_walka_split(ip, st):
+    from pyvc.dicts import declare_paths
+    reg = ip.reg
+    declare_paths(reg)
+    x, ks = reg.new("x", "Val").s, reg.new("ks", KARR).s
+    lo, mid, n = reg.new("lo", "Int").s, reg.new("mid", "Int").s, reg.new("n", "Int").s
+    # induction on mid - lo, the root generalised: the statement for the walk from lo+1, from any root
+    _hyp(st, "(forall ((y Val)) %s)" % walka_split("y", ks, "(+ %s 1)" % lo, mid, n))
+    _finish(ip, st, "P1: walka(x, ks, lo, n) = walka(the walka(x, ks, lo, mid), ks, mid, n)",
+            walka_split(x, ks, lo, mid, n), cases=["(= %s %s)" % (lo, mid), "(not (= %s %s))" % (lo, mid)])
+
+
+def _instance(ip, st, text):
+    """add an INSTANCE of a lemma that is proved (for arbitrary arguments) as a Lemma object of this file"""
+    from pyvc.dicts import declare_paths
+    from pyvc.smt import TRUE
+    declare_paths(ip.reg)
+    ax = T(text, "Bool")
+    if not ip.bound_stack and not any(h.s == ax.s for h in st.pc):
+        st.pc.append(ax)
+    ip.assumptions.add("instances of the key-path lemmas P1.. (proved as Lemma objects in contracts/P_ctx.py) are used "
+                       "as hypotheses")
+    return Bool(TRUE)
+
+
+def sp_walk_split(ip, st, pos, kws):
+    """walk_split(x, keys, lo, mid, n): True; brings lemma P1 at these arguments into the hypotheses"""
+    return _instance(ip, st, walka_split(dterm(ip, st, pos[0]).s, _karr(ip, st, pos[1]).s, ip.num(pos[2]).s,
+                                         ip.num(pos[3]).s, ip.num(pos[4]).s))
+
+
+def _karr(ip, st, v):
+    from pyvc.speclib import lst_term
+    if isinstance(v, Str) or (isinstance(v, Opaque) and v.sort == "Key"):
+        ip.reg.need(KARR)
+        return T("((as const %s) %s)" % (KARR, ip.key_term(v).s), KARR)
+    return ip.reg.l_arr(lst_term(ip, st, v, ip.reg.lst("Key")))
+
+
+def sp_walka(ip, st, pos, kws):
+    """walka(x, keys, i, n): the item reached from x by keys[i..n) (an optional value); keys: a list of keys or one key"""
+    from pyvc.dicts import declare_paths
+    declare_paths(ip.reg)
+    return Opaque(T("(walka %s %s %s %s)" % (dterm(ip, st, pos[0]).s, _karr(ip, st, pos[1]).s,
+                                             ip.num(pos[2]).s, ip.num(pos[3]).s), "Opt"))
+
+
+def register_paths(ix):
+    ix.spec_names["walka"] = sp_walka
+    ix.spec_names["walk_split"] = sp_walk_split
+    ix.lemmas.append(Lemma("key paths: a walk can be cut anywhere (P1)", CF, ["C08"], lem_walka_split,
+                           notes="induction on the length of the first part; hypothesis = the statement for the walk "
+                                 "from lo+1, from an arbitrary root"))
+    # get_recursively on a dictionary OBJECT: the result is the very item (an object callers may store through).
+    # Added as a further case of the C08 contract of get_recursively (tried first for arguments that are objects).
+    gr = ix.by_key[(CF, "get_recursively")]
+    gr.cases.insert(0, Contract(
+        CF, "get_recursively", name="get_recursively[dictionary object, list of keys, no default]",
+        params={"d": "Dict", "keys": "Lst[Key]", "default": SENT}, result="Dict",
+        result_ref=("d", "keys", "0", "len(keys)"),
+        raises={"LenaTypeError": "not isdict(d)",
+                "LenaKeyError": "isdict(d) and walka(d, keys, 0, len(keys)) == absent()"},
+        raises_frame="pure",
+        ensures=["walka(d, keys, 0, len(keys)) != absent()", "d == old(d)"],
+        loops={2: LoopSpec(cursor={"d": ("old(d)", "keys", "0", "_i")},
+                           invariant=["isdict(d)", "walk_split(old(d), keys, 0, _i, len(keys))",
+                                      "walk_split(old(d), keys, 0, _i - 1, _i)"])}))
+
+
+# ------------------------------------------------------------------------------------------------------ DeleteContext
+# property text C08: DeleteContext changes exactly the addressed item (removes it) and leaves the data and every other
+# item untouched; a path that is absent or passes through a scalar leaves the value unchanged; an empty key clears the
+# context; never another exception.  Reference: delpath(x, ks, i, n) = x without the item addressed by ks[i..n).
+DELPATH = ("(define-fun-rec delpath ((x Val) (ks %s) (i Int) (n Int)) Val "
+           "(ite (or (>= i n) (not (isD x)) (not (vhas x (select ks i)))) x "
+           "(ite (= i (- n 1)) (D (store (dm x) (select ks i) none)) "
+           "(D (store (dm x) (select ks i) (some (delpath (vget x (select ks i)) ks (+ i 1) n)))))))" % KARR)
+
+
+def declare_delpath(reg):
+    from pyvc.dicts import declare_paths
+    declare_paths(reg)
+    reg.fun_decl("delpath", DELPATH)
+
+
+def del_lemma(x, ks, i, n):
+    """D1: removing the addressed item = storing, through the reference to the dictionary that holds it, that dictionary
+    without the last key -- if that dictionary exists, is a dictionary and has the key; otherwise nothing changes"""
+    p = "(walka %s %s %s (- %s 1))" % (x, ks, i, n)
+    last = "(select %s (- %s 1))" % (ks, n)
+    return ("(=> (<= {i} (- {n} 1)) (= (delpath {x} {ks} {i} {n}) "
+            "(ite (and (not (= {p} none)) (isD (the {p})) (vhas (the {p}) {last})) "
+            "(wseta {x} {ks} {i} (- {n} 1) (D (store (dm (the {p})) {last} none))) {x})))").format(
+        x=x, ks=ks, i=i, n=n, p=p, last=last)
+
+
+def lem_delpath(ip, st):
+    reg = ip.reg
+    declare_delpath(reg)
+    x, ks = reg.new("x", "Val").s, reg.new("ks", KARR).s
+    i, n = reg.new("i", "Int").s, reg.new("n", "Int").s
+    _hyp(st, "(forall ((y Val)) %s)" % del_lemma("y", ks, "(+ %s 1)" % i, n))      # induction on n - i, root generalised
+    _finish(ip, st, "D1: delpath = store through the reference to the holder", del_lemma(x, ks, i, n),
+            cases=["(= %s (- %s 1))" % (i, n), "(not (= %s (- %s 1)))" % (i, n)])
+
+
+def sp_delpath(ip, st, pos, kws):
+    """delpath(x, keys, i, n): x without the item addressed by keys[i..n) (reference function of DeleteContext)"""
+    declare_delpath(ip.reg)
+    x, ks, i, n = dterm(ip, st, pos[0]).s, _karr(ip, st, pos[1]).s, ip.num(pos[2]).s, ip.num(pos[3]).s
+    _instance(ip, st, del_lemma(x, ks, i, n))
+    return Opaque(T("(delpath %s %s %s %s)" % (x, ks, i, n), "Val"))
+
+
+def register_delete(ix):
+    ix.spec_names["delpath"] = sp_delpath
+    ix.lemmas.append(Lemma("DeleteContext: delpath and stores through references (D1)", CE, ["C08"], lem_delpath,
+                           notes="induction on the length of the path; hypothesis = the statement from i+1, any root"))
+    ix.add_class(ClassSpec("DeleteContext", CE, fields={"_keyl": "Lst[Key]"}))
+    ix.add(Contract(
+        CE, "DeleteContext.__call__", props=["C08"], dict_model="Val",
+        cases=[
+            Contract(CE, "DeleteContext.__call__", name="DeleteContext.__call__[(data, context)]", dict_model="Val",
+                     params={"self": "Self[DeleteContext]", "value": "Tuple[V,Dict]"}, result="Tuple[V,Dict]",
+                     raises={},          # never an exception
+                     ensures=["result[0] == value[0]", "result[1] is value[1]",
+                              "not isdict(old(value[1])) implies value[1] == old(value[1])",
+                              "isdict(old(value[1])) and len(self._keyl) == 0 implies value[1] == emptydict()",
+                              "isdict(old(value[1])) and len(self._keyl) > 0 implies "
+                              "value[1] == delpath(old(value[1]), self._keyl, 0, len(self._keyl))"],
+                     modifies=["value[1]"]),
+            # a value that is no tuple (bare data: there is no context to change)
+            Contract(CE, "DeleteContext.__call__", name="DeleteContext.__call__[bare data]", dict_model="Val",
+                     params={"self": "Self[DeleteContext]", "value": "Real"}, result="Real",
+                     raises={}, ensures=["result == value"]),
+        ]))
+
+
+# ------------------------------------------------------------------------------------------------------ UpdateContext
+# Stores through a reference at a symbolic key path (the engine's wseta) and reading back (walka): lemmas W1-W3, each
+# proved below by induction on the length of the path (root generalised), then used universally (W1, W2: the patterns
+# only match nested wseta / walka-of-wseta terms, the instances create no new such terms) or by instance (W3).
+VALID = "(and (<= {lo} {hi}) (not (= (walka {x} {ks} {lo} {hi}) none)))"
+
+
+def w1(x, ks, lo, hi, v):
+    return ("(=> %s (= (walka (wseta {x} {ks} {lo} {hi} {v}) {ks} {lo} {hi}) (some {v})))" % VALID).format(
+        x=x, ks=ks, lo=lo, hi=hi, v=v)
+
+
+def w2(x, ks, lo, hi, v, w):
+    return ("(=> %s (= (wseta (wseta {x} {ks} {lo} {hi} {v}) {ks} {lo} {hi} {w}) (wseta {x} {ks} {lo} {hi} {w})))"
+            % VALID).format(x=x, ks=ks, lo=lo, hi=hi, v=v, w=w)
+
+
+def w3(x, ks, lo, hi, v):
+    return ("(=> %s (= (wseta {x} {ks} {lo} (+ {hi} 1) {v}) (wseta {x} {ks} {lo} {hi} "
+            "(D (store (dm (the (walka {x} {ks} {lo} {hi}))) (select {ks} {hi}) (some {v}))))))" % VALID).format(
+        x=x, ks=ks, lo=lo, hi=hi, v=v)
+
+
+GEN_W1 = ("(forall ((x Val) (ks %s) (lo Int) (hi Int) (v Val)) (! %s :pattern ((walka (wseta x ks lo hi v) ks lo hi))))"
+          % (KARR, w1("x", "ks", "lo", "hi", "v")))
+GEN_W2 = ("(forall ((x Val) (ks %s) (lo Int) (hi Int) (v Val) (w Val)) (! %s "
+          ":pattern ((wseta (wseta x ks lo hi v) ks lo hi w))))" % (KARR, w2("x", "ks", "lo", "hi", "v", "w")))
+
+
+def _wconsts(ip):
+    from pyvc.dicts import declare_paths
+    reg = ip.reg
+    declare_paths(reg)
+    return (reg.new("x", "Val").s, reg.new("ks", KARR).s, reg.new("lo", "Int").s, reg.new("hi", "Int").s,
+            reg.new("v", "Val").s, reg.new("w", "Val").s)
+
+
+def lem_w1(ip, st):
+    x, ks, lo, hi, v, w = _wconsts(ip)
+    _hyp(st, "(forall ((y Val)) %s)" % w1("y", ks, "(+ %s 1)" % lo, hi, v))
+    _finish(ip, st, "W1: reading back through the reference gives what was stored", w1(x, ks, lo, hi, v),
+            cases=["(= %s %s)" % (lo, hi), "(not (= %s %s))" % (lo, hi)])
+
+
+def lem_w2(ip, st):
+    x, ks, lo, hi, v, w = _wconsts(ip)
+    _hyp(st, "(forall ((y Val)) %s)" % w2("y", ks, "(+ %s 1)" % lo, hi, v, w))
+    _finish(ip, st, "W2: a second store through the same reference overwrites the first", w2(x, ks, lo, hi, v, w),
+            cases=["(= %s %s)" % (lo, hi), "(not (= %s %s))" % (lo, hi)])
+
+
+def lem_w3(ip, st):
+    x, ks, lo, hi, v, w = _wconsts(ip)
+    _hyp(st, "(forall ((y Val)) %s)" % w3("y", ks, "(+ %s 1)" % lo, hi, v))
+    _finish(ip, st, "W3: a store one key deeper = a store of the updated holder", w3(x, ks, lo, hi, v),
+            cases=["(= %s %s)" % (lo, hi), "(not (= %s %s))" % (lo, hi)])
+
+
+def sp_store_lemmas(ip, st, pos, kws):
+    """store_lemmas(): True; brings W1 and W2 (universally, see the patterns) into the hypotheses"""
+    r = None
+    for g in (GEN_W1, GEN_W2):
+        r = _instance(ip, st, g)
+    return r
+
+
+# property text C08 / docstring: UpdateContext changes exactly the addressed item to the given value (recursively: the
+# existing items of the addressed sub-context that the update does not overwrite are kept, see update_recursively) and
+# leaves the data and every other item untouched; the sub-context is always created.
+UPDPATH = ("(define-fun-rec updpath ((x Val) (ks %s) (i Int) (n Int) (u Val) (r Bool)) Val "
+           "(ite (>= i (- n 1)) "
+           "(ite r (upd x (D (store emptymap (select ks i) (some u)))) (D (store (dm x) (select ks i) (some u)))) "
+           "(D (store (dm x) (select ks i) (some (updpath "
+           "(ite (and (vhas x (select ks i)) (isD (vget x (select ks i)))) (vget x (select ks i)) (D emptymap)) "
+           "ks (+ i 1) n u r))))))" % KARR)
+
+
+def declare_updpath(reg):
+    from pyvc.dicts import declare_paths
+    declare_paths(reg)
+    declare_upd(reg)
+    reg.fun_decl("updpath", UPDPATH)
+
+
+def _updpath_term(ip, st, pos):
+    declare_updpath(ip.reg)
+    r = pos[5]
+    return "(updpath %s %s %s %s %s %s)" % (dterm(ip, st, pos[0]).s, _karr(ip, st, pos[1]).s, ip.num(pos[2]).s,
+                                            ip.num(pos[3]).s, dterm(ip, st, pos[4]).s, ip.truth(st, r).s)
+
+
+def sp_updpath(ip, st, pos, kws):
+    """updpath(x, keys, i, n, u, recursively): x with the item addressed by keys[i..n) set to u (reference function)"""
+    return Opaque(T(_updpath_term(ip, st, pos), "Val"))
+
+
+def sp_rest_done(ip, st, pos, kws):
+    """rest_done(context, keys, i, n, u, r): the context once the remaining work -- updating the sub-context reached by
+    keys[0..i) along keys[i..n) -- is done; brings W3 at (context, keys, 0, i - 1) into the hypotheses"""
+    declare_updpath(ip.reg)
+    c, ks = dterm(ip, st, pos[0]).s, _karr(ip, st, pos[1]).s
+    i, n = ip.num(pos[2]).s, ip.num(pos[3]).s
+    u, r = dterm(ip, st, pos[4]).s, ip.truth(st, pos[5]).s
+    sub = "(the (walka %s %s 0 %s))" % (c, ks, i)
+    inner = "(updpath %s %s %s %s %s %s)" % (sub, ks, i, n, u, r)
+    _instance(ip, st, w3(c, ks, "0", "(- %s 1)" % i, inner))
+    _instance(ip, st, walka_split(c, ks, "0", "(- %s 1)" % i, i))
+    return Opaque(T("(wseta %s %s 0 %s %s)" % (c, ks, i, inner), "Val"))
+
+
+def sp_simple_value(ip, st, pos, kws):
+    """simple_value(x): x is neither a string nor a jinja2.Template (docstring of UpdateContext: `a simple value`)"""
+    from pyvc.builtins_ import type_test, ext_instance
+    from pyvc.smt import AND, NOT
+    return Bool(AND(NOT(type_test(ip, st, pos[0], "str")), NOT(ext_instance(ip, dterm(ip, st, pos[0]), "jinja2", "Template"))))
+
+
+def register_update_context(ix):
+    for n, f in [("updpath", sp_updpath), ("rest_done", sp_rest_done), ("store_lemmas", sp_store_lemmas),
+                 ("simple_value", sp_simple_value)]:
+        ix.spec_names[n] = f
+    for name, build in [("key paths: read after store (W1)", lem_w1), ("key paths: store after store (W2)", lem_w2),
+                        ("key paths: store one key deeper (W3)", lem_w3)]:
+        ix.lemmas.append(Lemma(name, UC, ["C08"], build,
+                               notes="induction on the length of the path; hypothesis = the statement from lo+1, any root"))
+    ix.add_class(ClassSpec("UpdateContext", UC,
+                           fields={"_update": "Dict", "_subcontext": "Lst[Key]", "_recursively": "Bool"},
+                           invariant=["len(self._subcontext) >= 1"]))
+    INV = ["store_lemmas()", "isdict(subdict)", "isdict(context)",
+           "rest_done(context, keys, _i, len(keys), update, self._recursively) "
+           "== updpath({c0}, keys, 0, len(keys), update, self._recursively)"]
+
+    def case(name, vty, c0, extra_req, ens):
+        return Contract(UC, "UpdateContext.__call__", name="UpdateContext.__call__[simple value, %s]" % name,
+                        params={"self": "Self[UpdateContext]", "value": vty},
+                        result="Tuple[V,Dict]" if vty.startswith("Tuple") else "Tuple[%s,Dict]" % vty,
+                        requires=["simple_value(self._update)"] + extra_req,
+                        raises={}, dict_model="Val",
+                        loops={0: LoopSpec(cursor={"subdict": ("context", "keys", "0", "_i")},
+                                           invariant=[x.format(c0=c0) for x in INV])},
+                        ensures=ens + [
+                            # the update value placed in the context is a deep copy made during THIS call
+                            "is_deep_copy(local(update))", "local(update) == old(self._update)",
+                            "self._update == old(self._update)"],
+                        modifies=["value[1]"] if vty.startswith("Tuple") else [])
+    ix.add(Contract(
+        UC, "UpdateContext.__call__", props=["C08"], dict_model="Val",
+        cases=[
+            case("(data, context)", "Tuple[V,Dict]", "old(value[1])", ["isdict(value[1])"],
+                 ["result[0] == value[0]", "result[1] is value[1]",
+                  "value[1] == updpath(old(value[1]), self._subcontext, 0, len(self._subcontext), old(self._update), "
+                  "self._recursively)"]),
+            case("bare data", "Real", "emptydict()", [],
+                 ["result[0] == value",
+                  "result[1] == updpath(emptydict(), self._subcontext, 0, len(self._subcontext), old(self._update), "
+                  "self._recursively)"]),
+        ]))
+
+
 def register(ix):
     register_intersection(ix)
+    register_laws(ix)
+    register_paths(ix)
+    register_delete(ix)
+    register_update_context(ix)
